@@ -462,6 +462,14 @@ func (h *vhandler) Filelist(r *Request) (ListerAt, error) {
 		sort.Strings(names)
 		l := &vlister{h: h, name: r.Filepath}
 		for _, n := range names {
+			if r.Filepath != "/" {
+				// a sub-directory lists the files below it, by their base names
+				if !strings.HasPrefix(n, r.Filepath+"/") {
+					continue
+				}
+				l.infos = append(l.infos, vinfo{name: strings.TrimPrefix(n, r.Filepath+"/"), size: int64(len(h.files[n].data))})
+				continue
+			}
 			l.infos = append(l.infos, vinfo{name: strings.TrimPrefix(n, "/"), size: int64(len(h.files[n].data))})
 		}
 		h.Listers = append(h.Listers, l)
